@@ -289,6 +289,79 @@ theorem wl_generate_cases (title : Word → Word) (w : WLRecipe) :
     apply Rand.All_bind_true; intro d
     exact ⟨_, rfl⟩
 
+/-- The separator function never draws over zero alternatives either. -/
+theorem sepCall_noZero (s : Sep) : NoZero (s.call cfg) := by
+  cases s with
+  | char c => simp [Sep.call, NoZero]
+  | const c => simp [Sep.call, NoZero]
+  | recipe cr =>
+    simp only [Sep.call]
+    apply NoZero_bind
+    · intro res; cases res <;> simp [NoZero]
+    · exact genChars_noZero cfg cr
+
+theorem body_noZero (title : Word → Word) (w : WLRecipe) (words : List Word) (hw : words ≠ [])
+    (caps : Nat → Bool) (L : Nat) : ∀ (n i : Nat), NoZero (WLRecipe.body cfg title w words caps L i n)
+  | 0, i => by simp [WLRecipe.body, NoZero]
+  | n + 1, i => by
+    unfold WLRecipe.body
+    refine ⟨by cases words <;> simp_all, ?_⟩
+    intro j _
+    simp only
+    split
+    · apply NoZero_bind
+      · rintro ⟨s, d⟩
+        apply NoZero_bind
+        · intro rest; simp [NoZero]
+        · exact body_noZero title w words hw caps L n (i + 1)
+      · exact sepCall_noZero cfg w.sep
+    · apply NoZero_bind
+      · intro rest; simp [NoZero]
+      · exact body_noZero title w words hw caps L n (i + 1)
+
+/-- **`WLRecipe.Generate` never panics on `randomUint32n(0)`**, for any recipe at all: missing
+list, empty list, any length, any scheme string, any separator — every bounded draw it makes
+(the position under 'one', the coins, the words, the separator's characters) has at least one
+alternative. Together with `run_noZero`: the only way a run ends without a result is a failed
+read of the random source. -/
+theorem wl_generate_noZero (title : Word → Word) (w : WLRecipe) : NoZero (WLRecipe.generate cfg title w) := by
+  unfold WLRecipe.generate
+  cases hl : w.list with
+  | none => simp [NoZero]
+  | some wl =>
+    simp only
+    split
+    · simp [NoZero]
+    · rename_i hne
+      split
+      · simp [NoZero]
+      · rename_i hL
+        have hw : wl.words ≠ [] := by intro h; simp [h] at hne
+        have hLpos : 0 < w.length.toNat := by omega
+        apply NoZero_bind
+        · intro caps
+          apply NoZero_bind
+          · intro toks
+            apply NoZero_bind
+            · intro d; simp [NoZero]
+            · unfold WLRecipe.entropy
+              split
+              · simp [NoZero]
+              · apply NoZero_bind
+                · intro p; simp [NoZero]
+                · exact sepCall_noZero cfg _
+          · exact body_noZero cfg title w wl.words hw caps _ _ _
+        · unfold WLRecipe.capChoice
+          split
+          · simp [NoZero]
+          · split
+            · exact ⟨hLpos, fun _ _ => by simp [NoZero]⟩
+            · split
+              · apply NoZero_bind
+                · intro bits; simp [NoZero]
+                · exact drawMany_noZero 2 (by omega) _
+              · split <;> simp [NoZero]
+
 /-! ### Non-vacuity and the repaired defects -/
 
 /-- A zero-valued recipe and a recipe without a list give errors, not panics. -/
